@@ -7,7 +7,7 @@
 static uint8_t *RX;                 /* the receive buffer handed to parseFrame */
 static lltd_iface_state *ST;
 static int g_class;                 /* which oracle on_send applies */
-enum { CL_NONE = 0, CL_QUERY, CL_HELLO, CL_EMIT, CL_QLTLV, CL_ANY, CL_PAIR, CL_REL };
+enum { CL_NONE = 0, CL_QUERY, CL_HELLO, CL_EMIT, CL_QLTLV, CL_ANY, CL_PAIR, CL_REL, CL_IL };
 
 static uint8_t g_rec_desc[20]; static unsigned g_rec_cnt; static bool g_rec_valid;
 static size_t g_last_len;
@@ -20,9 +20,11 @@ static void oracle_qltlv(const vcfg *c, const uint8_t *f, size_t n);
 static void oracle_any(const vcfg *c, const uint8_t *f, size_t n);
 static void oracle_pair(const vcfg *c, const uint8_t *f, size_t n);
 static void oracle_rel(const vcfg *c, const uint8_t *f, size_t n);
+static void oracle_il(void *ctx, const uint8_t *f, size_t n);
 
 static void on_send(void *ctx, const uint8_t *f, size_t n) {
     const vcfg *c = (const vcfg *)ctx;
+    if (g_class == CL_IL) { oracle_il(ctx, f, n); V_WITNESS("a frame was transmitted"); return; }
     V_ASSERT(ctx == g_expect_ctx || (g_expect_ctx == 0 && ctx == (void *)&g_cfgA), "C02,C17: frames leave on the interface the request arrived on");
     g_last_len = n;
     if (n >= 32) {
